@@ -18,7 +18,7 @@
       shard : doc -> shard number
       fs    : set of facet sizes requested (all at once, one facet per size)
       ranges: numeric range set of the range facet
-      quirk : TRUE = model hitsInCurrentPage literally (trim only when Size > 0)]
+      quirk : TRUE = hitsInCurrentPage as it was before /repo 22240fd (trim only when Size > 0)]
    Documents are numbers; the external id of document d sorts like d.
    A sort is a sequence of [by |-> "key"|"id", desc, mfirst]; it contains "id", so it is total.
    A request is [from, size, sort, mode |-> "page"|"after"|"before", cursor].
